@@ -1260,16 +1260,16 @@ func TestVerifC07(t *testing.T) {
 		name     string
 		quick, t int
 	}{
-		{famSfDo, 2400, 36000},
-		{famSfEx, 2400, 36000},
-		{famSfMix, 1800, 27000},
-		{famLc, 2200, 33000},
-		{famRm, 2000, 30000},
+		{famSfDo, 6000, 130000},
+		{famSfEx, 6000, 130000},
+		{famSfMix, 4800, 100000},
+		{famLc, 5600, 120000},
+		{famRm, 5000, 110000},
 	}
 	for _, f := range fams {
 		f := f
 		kit.Run(t, "C07", f.name, kit.N(f.quick, f.t), func(c *kit.Case) { runHistory(c, f.name) })
 	}
-	kit.Run(t, "C07", famIndep, kit.N(300, 4500), runIndep)
+	kit.Run(t, "C07", famIndep, kit.N(800, 12000), runIndep)
 	kit.End()
 }
